@@ -25,6 +25,7 @@ func init() {
 		{Pkg: oreg, Func: "ParseReference", Oracle: true},
 		{Pkg: oreg, Func: "Reference.ValidateReferenceAsDigest", Oracle: true},
 		{Pkg: "github.com/opencontainers/go-digest", Func: "Digest.String"},
-		{Pkg: n, Func: "Verify"},
+		// the local error value errExceededMaxVerificationLimit (notation.go:536) is compared by identity (errors.Is at :587)
+		{Pkg: n, Func: "Verify", LocalErrorIdentity: []string{"errExceededMaxVerificationLimit"}},
 	})
 }
